@@ -78,7 +78,8 @@ ParseString(I, p) ==
 
 ParseLiteral(I, p, types, tid, c) ==
   LET n == LiteralWords(types, tid) IN
-  IF ~Have(I, p) THEN NoWord(I, p, c)
+  \* (no word left AND a type of unsupported width: the instruction has both faults, see ErrAdmissible)
+  IF ~Have(I, p) THEN [NoWord(I, p, c) EXCEPT !.info = IF n = 0 THEN <<"unsupported">> ELSE <<>>]
   ELSE IF n = 0 THEN Fault("type-unsupported", p, <<>>)
   ELSE IF n = 1 THEN Good(p + 1, <<Op1("LiteralBit32", I.ws[p])>>)
   ELSE IF Have(I, p + 1) THEN Good(p + 2, <<Op64(I.ws[p], I.ws[p + 1])>>)   \* low word first
@@ -253,6 +254,7 @@ ErrAdmissible(f, e) ==
   \* end of the stream may be reported as cut short; one with a zero word count AND an unknown opcode as either.
   /\ \/ f.cut /\ truncOK
      \/ f.class = "wc-zero" /\ f.info # <<>> /\ kind = "OpcodeUnknown" /\ e[5] = f.info[1]
+     \/ f.class \in {"missing", "truncated", "inside"} /\ f.info = <<"unsupported">> /\ kind = "TypeUnsupported"
      \/ ClassAdmits(f, e, kind, truncOK)
 
 HeaderErrAdmissible(h, e) ==
